@@ -275,6 +275,92 @@ def run_kernel(ctx, mm, sem, parser, kernel, ports, uops_of, info, inc, trace=Tr
     return {"uniform": uni_sums, "once": once_sums, "twice": list(sem.get_throughput_sum(kernel))}
 
 
+_RAW = {}
+_MM = {}
+
+
+def pressure_isa(arch):
+    from harness import pressure
+
+    if arch not in _RAW:
+        _RAW[arch] = pressure.load_raw(arch)
+    return "x86" if str(_RAW[arch].get("isa", "")).lower() == "x86" else "aarch64"
+
+
+def shipped_form_kernels(ctx, quick):
+    """[(arch, [line, line, line])]: representatives of the distinct micro-op lists of register-form entries"""
+    from harness import c07synth, corpus, pressure
+
+    rng = ctx.rng
+    out = []
+    for isa in ("x86", "aarch64"):
+        base = list(corpus.archs_of(isa, quick))
+        others = [a for a in corpus.archs_of(isa, False) if a not in base]
+        archs = base + (rng.sample(others, min(2, len(others))) if quick else others)
+        for arch in archs:
+            pressure_isa(arch)
+            raw = _RAW[arch]
+            reps = {}
+            for ri, name, e in c07synth.expand_forms(raw.get("instruction_forms") or []):
+                pp = e.get("port_pressure")
+                ops = e.get("operands") or []
+                if not isinstance(pp, list) or not pp or not e.get("throughput"):
+                    continue
+                if any(not isinstance(o, dict) or o.get("class") not in ("register", "immediate") for o in ops):
+                    continue
+                if isa == "x86" and len(ops) > 4:
+                    continue
+                key = repr(pressure.canon(pp))
+                if key in reps:
+                    continue
+                line, _why = c07synth.synth_line(isa, name, ops, c07synth.Pick())
+                if line is not None:
+                    reps[key] = line
+            lines = list(reps.values())
+            if len(lines) < 3:
+                continue
+            picks = lines if not quick else rng.sample(lines, min(len(lines), 20))
+            for ln in picks:
+                out.append((arch, [ln] + rng.sample(lines, 2)))
+                if rng.random() < 0.5:
+                    out[-1][1].reverse()
+    return out
+
+
+def run_lines(ctx, arch, isa, lines, inc, kind):
+    """a kernel given as text on a shipped model: states uniform / once / twice judged against the micro-ops the
+    implementation lists for each line (as for the shipped kernels)"""
+    from osaca.parser import ParserAArch64, ParserX86ATT
+    from osaca.semantics import ArchSemantics, MachineModel
+
+    parser = ParserX86ATT() if isa == "x86" else ParserAArch64()
+    if arch not in _MM:
+        m_ = MachineModel(arch=arch)
+        _MM[arch] = (m_, ArchSemantics(m_))
+    mm, sem0 = _MM[arch]
+    ports = [str(p) for p in mm.get_ports()]
+    try:
+        kernel = parser.parse_file("\n".join(lines))
+        sem0.add_semantics(kernel)
+    except Exception as e:  # noqa
+        ctx.count("shipped_forms_unparsed")
+        return
+    table = {}
+    for li, ins in enumerate(kernel):
+        pu = ins.port_uops
+        if not isinstance(pu, list) or ins.port_pressure is None:
+            continue
+        try:
+            avg = mm.average_port_pressure(pu)
+        except Exception:  # noqa
+            continue
+        if all(abs(a - b) < 1e-9 for a, b in zip(avg, ins.port_pressure)):
+            table[li] = [(c, 1, [ports.index(p) for p in list(ps)]) for c, ps in pu]
+    kernel2 = parser.parse_file("\n".join(lines))
+    info = {"kind": kind, "arch": arch, "isa": isa, "kernel": lines}
+    run_kernel(ctx, mm, sem0, parser, kernel2, ports, lambda li, table=table: table.get(li), info, inc)
+
+
 def run(ctx):
     ctx.assumptions = TRUSTED
     ctx.prove(["Consts"], ["OsacaVerif.Props.C01", "OsacaVerif.Props.C01Oracle"])
@@ -453,6 +539,16 @@ def run(ctx):
             run_kernel(ctx, mm, ArchSemantics(mm), parser, kernel2, ports, lambda li, table=table: table.get(li), info, inc)
             ctx.count("kernels_shipped")
             distinct.add(repr((path, arch)))
+
+    # ------------------------------------------------------------------ every distinct micro-op list of the shipped models
+    # One instruction per DISTINCT micro-op list of a model (written from its entry's own pattern, register forms only), in small
+    # kernels with two other such instructions: what the balancer does with every shape of micro-op list that is shipped
+    # (nested port groups, port strings, many micro-ops ...), not only with the ones the example kernels happen to use.
+    for arch, lines in shipped_form_kernels(ctx, quick):
+        isa = "x86" if pressure_isa(arch) == "x86" else "aarch64"
+        run_lines(ctx, arch, isa, lines, inc, "shipped-forms")
+        ctx.count("kernels_shipped_forms")
+        distinct.add(repr((arch, lines)))
 
     ctx.cov["distribution"] = dist
     ctx.cov["evaluations"] = sum(v for k, v in ctx.counts.items() if k.startswith("feasible_checks")) + ctx.counts.get("k1_average", 0)
